@@ -16,7 +16,8 @@ def pair_rems(r):
     k = r.below(8)
     if k < 3:
         ra = r.uniform(0.0, fb.Q - 2e-10)
-        off = r.choice([0.0, 1e-15, -1e-15, 1e-10, -1e-10, 2e-15, -2e-15, 1.5e-10, -1.5e-10, 5e-16, -5e-16])
+        off = r.choice([0.0, 1e-15, -1e-15, 1e-10, -1e-10, 2e-15, -2e-15, 1.5e-10, -1.5e-10, 5e-16, -5e-16,
+                        1e-14, -1e-14, 1e-13, -1e-13, 1e-12, -1e-12, 3e-12, 1e-11, -1e-11, 5e-11, -5e-11, 9.9e-11, -9.9e-11, 1e-9, -1e-9])
         rb = fb.nxt(fb.Q + off - ra, r.choice([-2, -1, 0, 1, 2]))
         rb = min(max(rb, 0.0), fb.nxt(fb.Q - 1e-10, -2))
         return ra, rb
